@@ -140,6 +140,7 @@ func (l *basicLoader) SetEntry(name px.TypedName, entry px.LoaderEntry) px.Loade
 			// a cached miss never replaces, nor conflicts with, what is already there
 			return old
 		}
+		verifhook.PointRW("setentry.after-lookup", &l.lock)
 		ov := old.Value()
 		if ov == nil {
 			// the entry without value is replaced, not written to: other go routines read it without the lock
